@@ -14,11 +14,11 @@ TNext ==
                    /\ calls' = [t \in Threads |-> <<>>] /\ nextIx' = [s \in Sinks |-> [t \in Threads |-> 1]] /\ lastFile' = [s \in Sinks |-> 0]
   \/ IsEv("config") /\ DConfig(Ev.max, Ev.sinks)
   \/ IsEv("enabled") /\ DEnable(Ev.s)
-  \/ IsEv("call") /\ DCall(Ev.th, Ev.seq, Ev.lvl, Ev.mod, Ev.func, Ev.file, Ev.line, Ev.len)
-  \/ IsEv("ret") /\ DRet(Ev.th)
+  \/ IsEv("call") /\ DCall(Ev.th, Ev.seq, Ev.lvl, Ev.mod, Ev.func, Ev.file, Ev.line, Ev.len, Ev.t0)
+  \/ IsEv("ret") /\ DRet(Ev.th, Ev.t1)
   \/ IsEv("front") /\ Ev.th \in Threads /\ DFront(Ev.s, Ev.th)
   \/ IsEv("disable_begin") /\ DDisableBegin(Ev.s)
-  \/ IsEv("got") /\ Ev.th \in Threads /\ Ev.s \in Sinks /\ DGot(Ev.s, Ev.th, Ev.lvl, Ev.lvlc, Ev.mod, Ev.func, Ev.file, Ev.line, Ev.len, Ev.trunc, Ev.head, Ev.pad, Ev.ts_ok, Ev.fi)
+  \/ IsEv("got") /\ Ev.th \in Threads /\ Ev.s \in Sinks /\ DGot(Ev.s, Ev.th, Ev.lvl, Ev.lvlc, Ev.mod, Ev.func, Ev.file, Ev.line, Ev.len, Ev.trunc, Ev.head, Ev.pad, Ev.ts_ok, Ev.fi, Ev.ts)
   \/ IsEv("disabled") /\ DDisabled(Ev.s)
   \/ Skip("end")
 TSpec == TInit /\ [][TNext]_tvars
